@@ -60,13 +60,25 @@ func c08Cert(suite CipherSuiteID) func() (*dtlsConfig, *dtlsConfig) {
 	}
 }
 
+// c08CIDGenerator: connection IDs are a function of VERIF_SEED, the suite, the length and the side (reproducible
+// runs) instead of RandomCIDGenerator.
+func c08CIDGenerator(suite CipherSuiteID, n int, client bool) func() []byte {
+	seed := (vSeed()^0xc08c1d)*1099511628211 + uint64(suite)<<8 + uint64(n) //nolint:gosec
+	if client {
+		seed ^= 0x5555
+	}
+	rng := newVRand(seed)
+
+	return func() []byte { return rng.bytes(n) }
+}
+
 func c08PSK(suite CipherSuiteID, ccid, scid int) func() (*dtlsConfig, *dtlsConfig) {
 	return func() (*dtlsConfig, *dtlsConfig) {
 		c, s := vPSKPair(suite)
 		c.MaxVersion, s.MaxVersion = protocol.Version1_2, protocol.Version1_2
 		if ccid > 0 || scid > 0 {
-			c.ConnectionIDGenerator = RandomCIDGenerator(ccid)
-			s.ConnectionIDGenerator = RandomCIDGenerator(scid)
+			c.ConnectionIDGenerator = c08CIDGenerator(suite, ccid, true)
+			s.ConnectionIDGenerator = c08CIDGenerator(suite, scid, false)
 		}
 
 		return c, s
